@@ -429,6 +429,10 @@ func ParseRule(options RuleOptions) (*corazawaf.Rule, error) {
 	} else {
 		// quoted actions separated by comma (,)
 		rawActions = utils.MaybeRemoveQuotes(options.Data)
+		if hasUnescapedQuote(rawActions) {
+			// e.g. a missing opening quote or two directives on one line
+			return nil, fmt.Errorf("unexpected double quote inside the actions: %q", options.Data)
+		}
 		err = rp.ParseActions(rawActions)
 		if err != nil {
 			return nil, err
@@ -498,8 +502,31 @@ func parseActionOperator(data string) (vars string, op string, actions string, e
 		return "", "", "", fmt.Errorf("invalid actions for rule with operator: %q", data)
 	}
 	actions = utils.MaybeRemoveQuotes(rest)
+	if hasUnescapedQuote(actions) {
+		// the quoted actions end before the end of the line, something follows them
+		return "", "", "", fmt.Errorf("unexpected double quote inside the actions of rule with operator: %q", data)
+	}
 
 	return
+}
+
+// hasUnescapedQuote reports whether s contains a double quote that is not
+// preceded by an odd number of backslashes.
+func hasUnescapedQuote(s string) bool {
+	backslashes := 0
+	for i := 0; i < len(s); i++ {
+		switch s[i] {
+		case '\\':
+			backslashes++
+			continue
+		case '"':
+			if backslashes%2 == 0 {
+				return true
+			}
+		}
+		backslashes = 0
+	}
+	return false
 }
 
 func cutQuotedString(s string) (string, string, error) {
